@@ -3,7 +3,7 @@
 From Coq Require Import ZArith List.
 From MC Require Import Obs Packed.
 Import ListNotations.
-Open Scope Z_scope.
+Local Open Scope Z_scope.
 
 Definition pstate (w : Z) : obs := OL [OZ w; OZ (len w); OZ (capacity w); OB (is_empty w)].
 
